@@ -195,6 +195,15 @@ def run(tier, seed, only=None):
     # ---------------- cantilever closed form (ny = 2, beam along -y from the clamped root at the origin)
     cantilever(rep, timeout)
     states_group(rep, tier, timeout)
+    from props import groups
+    from openaerostruct.structures.tube_group import TubeGroup
+    from openaerostruct.structures.assemble_k_group import AssembleKGroup
+
+    fam = "every component of the group works on the group's own variables of the same name"
+    st = K.surface(2, 3, True)
+    st.update({"thickness_cp": np.array([0.1, 0.2]), "radius_cp": np.array([0.3, 0.4])})
+    groups.wiring_check(rep, lambda: TubeGroup(surface=st), "TubeGroup", fam, timeout)
+    groups.wiring_check(rep, lambda: AssembleKGroup(surface=st), "AssembleKGroup", fam, timeout)
     rep.bounds = {"cases": [c[0] for c in cfg]}
     rep.assumptions = ["real arithmetic", "sparse LU accuracy not modelled (the equation being solved is what is compared)",
                        "loads above the 1e-6 N zeroing threshold", "elements not parallel to the x axis (|e1 x xhat| != 0)"]
